@@ -642,3 +642,55 @@ Proof.
   rewrite (nc_cur_uniform s [concat parts] ncinit (or_introl eq_refl)).
   pose proof (nc_fix_partition s parts) as H. cbn [map] in *. exact H.
 Qed.
+
+(* ------------------------------------------------------------------ header count *)
+Lemma hwrite_frames e ids : forall s, hd_frames (hwrite e ids s) = hd_frames s ++ ids.
+Proof.
+  induction ids as [|i ids IH]; intros s; cbn [hwrite]; [rewrite app_nil_r; reflexivity|].
+  rewrite IH. cbn [hd_frames]. rewrite <- app_assoc. reflexivity.
+Qed.
+
+Lemma hrun_frames e ops : forall s, hd_frames (fold_left (fun s o => hstep e o s) ops s) = hd_frames s ++ written ops.
+Proof.
+  induction ops as [|o ops IH]; intros s; cbn [fold_left written]; [rewrite app_nil_r; reflexivity|].
+  rewrite IH. destruct o; cbn [hstep hd_frames written]; [rewrite hwrite_frames, <- app_assoc|..]; reflexivity.
+Qed.
+
+(* a writer that refreshes the header after EVERY frame keeps header = number of frames *)
+Lemma hwrite_header_1 ids : forall s, hd_header s = length (hd_frames s) ->
+  hd_header (hwrite 1 ids s) = length (hd_frames (hwrite 1 ids s)).
+Proof.
+  induction ids as [|i ids IH]; intros s Hs; cbn [hwrite]; [exact Hs|].
+  apply IH. cbn [hd_header hd_frames]. rewrite Nat.mod_1_r. reflexivity.
+Qed.
+
+Lemma hrun_header_1 ops : forall s, hd_header s = length (hd_frames s) ->
+  hd_header (fold_left (fun s o => hstep 1 o s) ops s) = length (hd_frames (fold_left (fun s o => hstep 1 o s) ops s)).
+Proof.
+  induction ops as [|o ops IH]; intros s Hs; cbn [fold_left]; [exact Hs|].
+  apply IH. destruct o; cbn [hstep hd_header hd_frames]; [apply hwrite_header_1, Hs | exact Hs | reflexivity].
+Qed.
+
+(* side condition of durability for formats with a frame count in the header: the header is refreshed after every
+   frame, OR the reader derives the count from the file size.  Then, whatever the reader trusts, a killed writer's
+   file shows exactly the frames of all completed writes *)
+Theorem header_count_durable trust ops : hload trust (hrun 1 ops) = written ops.
+Proof.
+  unfold hload, hrun.
+  pose proof (hrun_header_1 ops hinit eq_refl) as Hh. pose proof (hrun_frames 1 ops hinit) as Hf.
+  cbn [hd_frames hinit app] in Hf.
+  destruct (trust && negb (Nat.eqb (hd_header (fold_left (fun s o => hstep 1 o s) ops hinit)) 0)).
+  - rewrite Hh, firstn_all. exact Hf.
+  - exact Hf.
+Qed.
+
+Theorem size_derived_count_durable hevery ops : hload false (hrun hevery ops) = written ops.
+Proof. unfold hload, hrun. cbn [andb]. apply (hrun_frames hevery ops hinit). Qed.
+
+(* a writer that refreshes the header only every 8th frame, read by a reader that trusts a non-zero header:
+   11 frames written and acknowledged, 8 loaded after a kill; a clean close repairs the header *)
+Lemma header_refresh_every_8_loses_frames :
+  hload true (hrun 8 [DWrite [1; 2; 3; 4; 5]; DWrite [6; 7; 8; 9; 10; 11]]) = [1; 2; 3; 4; 5; 6; 7; 8] /\
+  hload true (hrun 8 [DWrite [1; 2; 3; 4; 5]; DWrite [6; 7; 8; 9; 10; 11]; DClose]) = [1; 2; 3; 4; 5; 6; 7; 8; 9; 10; 11] /\
+  hload true (hrun 8 [DWrite [1; 2; 3; 4; 5; 6; 7]]) = [1; 2; 3; 4; 5; 6; 7].
+Proof. vm_compute. repeat split. Qed.
